@@ -153,6 +153,16 @@ class Interp:
             idx = slice(lo, hi)
         elif kind == "step_slice":
             idx = slice(a % n, None, 1 + b % 3)
+        elif kind == "neg_slice":
+            if m["xp"] == "torch":
+                return  # torch rejects negative steps by design
+            # reversed selections with and without explicit bounds: s[::-k], s[hi:lo:-k], s[hi::-k], s[:lo:-k]
+            step = -(1 + b % 3)
+            form = seed % 4
+            lo, hi = sorted((a % n, b % n))
+            idx = [slice(None, None, step), slice(hi, lo, step), slice(hi, None, step), slice(None, lo, step)][form]
+            if len(range(n)[idx]) == 0:
+                return
         elif kind == "mask":
             mask = rng.random(n) < 0.5
             if not mask.any():
@@ -289,7 +299,7 @@ def make_machine(interp_factory, workdir, col):
         def create(self, cls, xp, dtype, n, d, fields, evidence, seed):
             self.do("create", cls=cls, xp=xp, dtype=dtype, n=n, d=d, fields=list(fields), evidence=evidence, seed=seed)
 
-        @rule(src=st.integers(0, 20), kind=st.sampled_from(["slice", "step_slice", "mask", "index_array", "mask_list", "index_list"]), a=st.integers(0, 20), b=st.integers(0, 20), seed=st.integers(0, 1000))
+        @rule(src=st.integers(0, 20), kind=st.sampled_from(["slice", "step_slice", "neg_slice", "mask", "index_array", "mask_list", "index_list"]), a=st.integers(0, 20), b=st.integers(0, 20), seed=st.integers(0, 1000))
         def select(self, src, kind, a, b, seed):
             self.do("select", src=src, kind=kind, a=a, b=b, seed=seed)
 
